@@ -53,7 +53,7 @@ CLAIMED.update({
 
 CLAIMED.update({
  "C11": ("Bounded symbolic model checking of the real AML parser (ParseAML with all its passes) on well-formed programs of fixed shape with symbolic contents: every name segment, integer/string constant, flag byte and PkgLength encoding is decided by the solver; after a successful parse every declared object is located by its stream offset and checked for kind, name, absolute path (enclosing named scopes up to the root), integer/string arguments in order; method invocations before and after the declaration carry exactly the declared arguments.",
-         "Shapes are enumerated (eight templates: ten kinds of named objects at the root and nested in a Device; Scope(\\_SB_) and a dual-name Scope to a Device; forward and backward two-argument method calls; parent-prefix, relative and absolute multi-segment names and Scope targets through two nested Devices; invocations with operator expressions as arguments / as operands; If nested in a While body; 0..7-argument invocation inside a deferred block; a name referring into a Device that is declared later through an absolute path), contents symbolic; this is not 'every program of the grammar': multi-table loads, Buffer size expressions, BankField, nesting depth > 3 are outside. Two open known findings (KF-C11-1 parent-prefix names inside a Device, KF-C11-4 If inside While), both encoded in the repository's golden files. kfmt.Fprintf stubbed while encoding.", "7 C11"),
+         "Shapes are enumerated (nine templates: ten kinds of named objects at the root and nested in a Device; Scope(\\_SB_) and a dual-name Scope to a Device; forward and backward two-argument method calls; parent-prefix, relative and absolute multi-segment names and Scope targets through two nested Devices; invocations with operator expressions as arguments / as operands; If nested in a While body; 0..7-argument invocation inside a deferred block; a name referring into a Device that is declared later through an absolute path; Scope(\\\\) written as RootChar + NullName), contents symbolic; this is not 'every program of the grammar': multi-table loads, Buffer size expressions, BankField, nesting depth > 3 are outside. Two open known findings (KF-C11-1 parent-prefix names inside a Device, KF-C11-4 If inside While), both encoded in the repository's golden files. kfmt.Fprintf stubbed while encoding.", "7 C11"),
  "C12": ("Bounded symbolic model checking of the real ParseAML on malformed input: every payload of up to 2 (thorough 3) arbitrary bytes behind a valid header, and templates with unconstrained holes (Device with a dual-name path of 8 arbitrary name bytes; Field Connection buffer with arbitrary length prefix; Scope(\\_SB_) with a 1..2-byte arbitrary body; path-declared Name followed by a Scope directive with 8 arbitrary name bytes; nested Buffers with both package-length bytes from a menu of 20 values; a Method whose PkgLength cuts its name short): never panics, call depth stays within a budget proportional to the input (exceeding it = non-termination), every []byte the tree refers to lies inside the table region, the tree stays a tree (parent chains end, child lists consistent in both directions) and can be printed afterwards, whether the table was accepted or rejected (quick tier: in the templates; thorough: everywhere).",
          "Arbitrary inputs longer than 3 bytes only through the six templates; termination = call-depth 120 / 600 decisions / 20M instructions per path; kfmt.Fprintf stubbed while encoding.", "7 C12"),
  "C14": ("Bounded symbolic model checking of the real locateRSDT and acpiDriver.DriverInit over raw firmware regions with symbolic bytes: RSDP found at the first 16-byte slot whose descriptor has the signature and a zero byte sum (20 bytes for revision 0, the 36 bytes of the ACPI 2.0 structure otherwise - stated from the specification, not from the padded Go struct), window unmapped on every path; RSDT/XSDT enumeration registers a listed table iff its bytes sum to zero, reports and skips bad ones, and registers the DSDT a checksum-valid FADT designates (32-bit pointer for revision < 2 roots, else the 64-bit one, 32-bit when that is zero); the DSDT is placed alone in its frame, page-aligned or crossing a page boundary, and the mappings the driver requests must reach what it then reads (open known finding KF-C14-2); at the 4 GiB-aligned address 0x200000000; and a FADT laid out as the ACPI specification packs it, X_DSDT at byte offset 140 (open known finding KF-C14-4: the Go struct reads offset 152).",
